@@ -200,8 +200,8 @@ fn builder_history(spec: &str) -> String {
             Ok(nb) => b = nb,
             Err(_) => {
                 let n = match f[0] { "slice" | "batch" => num(f[1]) as usize, "tlv" => num(f[2]) as usize, _ => 0 };
-                let enc = match f[0] { "tlv" => n + 3, "batch" => n + 1, "slice" => n, "u16" => 2, _ => 1 };
-                let legit = n > 65535 || before + enc > 65535;
+                let fixed = match f[0] { "tlv" => 3, "batch" => n, "slice" => 0, "u16" => 2, _ => 1 };
+                let legit = n > 65535 || before + fixed > 65535;
                 return format!("builder call {} ({}) failed legit={}", i, f[0], legit);
             }
         }
